@@ -1,12 +1,106 @@
-(* C04 - provisional: replaced when the per-node proof files are complete. *)
-From Coq Require Import List ZArith.
+(* C04 - the completion callback never precedes completion.
+   Statements restated from the proof files by harness/mkprops.py; every theorem quantifies over ALL action
+   lists (schedules of emits, consumer completions, task completions, time advances). *)
+From Coq Require Import List ZArith Bool Arith Permutation Sorted.
 From SZ Require Import Base.Values.
 From SZ Require Import Sync.Nodes.
 From SZ Require Import Async.Core.
-From SZ Require Import Async.Plain.
+From SZ Require Async.BufferProofs.
+From SZ Require Async.DelayProofs.
+From SZ Require Async.LatestProofs.
+From SZ Require Async.RateLimitProofs.
+From SZ Require Async.TimedWindowProofs.
+From SZ Require Async.PartitionTOProofs.
+From SZ Require Async.MapAsyncProofs.
+From SZ Require Async.ZipBPProofs.
+From SZ Require Async.Plain.
 Import ListNotations.
 
-Theorem C04_callback_only_at_zero : forall s m r,
-  In r (rfired (rc_release s m 1)) -> In r (rfired s) \/ (rcnt s r - mocc m r <= 0)%Z /\ (1 <= mocc m r)%Z.
-Proof. exact rfired_release_new. Qed.
-Print Assumptions C04_callback_only_at_zero.
+(* from Async.BufferProofs *)
+Section S_buffer_cb_not_early_BufferProofs.
+Import SZ.Async.BufferProofs.
+Theorem C04_buffer_cb_not_early : forall (n : nat) (sync : bool) (acts : list act) (s : nm_state Buffer.buffer_model) (outs : list (list (Z * val * list mdi) * list nat)), run_steps Buffer.buffer_model (Buffer.b_init n sync) acts = (s, outs) -> NoDup (ids_of acts) -> forall r : nat, In r (rfired (Buffer.b_rc s)) -> mocc (b_held s) r = 0%Z.
+Proof. exact (@buffer_cb_not_early). Qed.
+End S_buffer_cb_not_early_BufferProofs.
+Print Assumptions C04_buffer_cb_not_early.
+
+(* from Async.DelayProofs *)
+Section S_delay_cb_not_early_DelayProofs.
+Import SZ.Async.DelayProofs.
+Theorem C04_delay_cb_not_early : forall (interval : Z) (sync : bool) (acts : list act) (s : nm_state Delay.delay_model) (outs : list (list (Z * val * list mdi) * list nat)), run_steps Delay.delay_model (Delay.d_init interval sync) acts = (s, outs) -> NoDup (ids_of acts) -> forall r : nat, In r (rfired (Delay.d_rc s)) -> mocc (d_held s) r = 0%Z.
+Proof. exact (@delay_cb_not_early). Qed.
+End S_delay_cb_not_early_DelayProofs.
+Print Assumptions C04_delay_cb_not_early.
+
+(* from Async.LatestProofs *)
+Section S_latest_cb_not_early_LatestProofs.
+Import SZ.Async.LatestProofs.
+Theorem C04_latest_cb_not_early : forall (sync : bool) (acts : list act) (s : nm_state Latest.latest_model) (outs : list (list (Z * val * list mdi) * list nat)), run_steps Latest.latest_model (Latest.l_init sync) acts = (s, outs) -> NoDup (ids_of acts) -> forall r : nat, In r (rfired (Latest.l_rc s)) -> mocc (l_held s) r = 0%Z.
+Proof. exact (@latest_cb_not_early). Qed.
+End S_latest_cb_not_early_LatestProofs.
+Print Assumptions C04_latest_cb_not_early.
+
+(* from Async.LatestProofs *)
+Section S_latest_slot_kept_LatestProofs.
+Import SZ.Async.LatestProofs.
+Theorem C04_latest_slot_kept : forall (sync : bool) (acts : list act) (s : nm_state Latest.latest_model) (outs : list (list (Z * val * list mdi) * list nat)) (x : val) (m : list mdi), run_steps Latest.latest_model (Latest.l_init sync) acts = (s, outs) -> NoDup (ids_of acts) -> Latest.l_slot s = Some (x, m) -> forall r : nat, (1 <= mocc m r)%Z -> ~ In r (rfired (Latest.l_rc s)).
+Proof. exact (@latest_slot_kept). Qed.
+End S_latest_slot_kept_LatestProofs.
+Print Assumptions C04_latest_slot_kept.
+
+(* from Async.RateLimitProofs *)
+Section S_rl_cb_not_early_RateLimitProofs.
+Import SZ.Async.RateLimitProofs.
+Theorem C04_rl_cb_not_early : forall (i : Z) (sync : bool) (acts : list act) (s : RateLimit.rst) (outs : list (list (Z * val * list mdi) * list nat)), (0 < i)%Z -> run_steps RateLimit.rate_limit_model (RateLimit.r_init i sync) acts = (s, outs) -> NoDup (ids_of acts) -> forall r : nat, In r (rfired (RateLimit.r_rc s)) -> mocc (r_held s) r = 0%Z.
+Proof. exact (@rl_cb_not_early). Qed.
+End S_rl_cb_not_early_RateLimitProofs.
+Print Assumptions C04_rl_cb_not_early.
+
+(* from Async.TimedWindowProofs *)
+Section S_tw_cb_not_early_TimedWindowProofs.
+Import SZ.Async.TimedWindowProofs.
+Theorem C04_tw_cb_not_early : forall (i : Z) (sync : bool) (uniq : option ((val -> val) * bool)) (acts : list act) (s : TimedWindow.wst) (outs : list (list (Z * val * list mdi) * list nat)), (0 < i)%Z -> run_steps TimedWindow.timed_window_model (fst (TimedWindow.w_init i sync uniq)) acts = (s, outs) -> NoDup (ids_of acts) -> forall r : nat, In r (rfired (TimedWindow.w_rc s)) -> mocc (w_held s) r = 0%Z.
+Proof. exact (@tw_cb_not_early). Qed.
+End S_tw_cb_not_early_TimedWindowProofs.
+Print Assumptions C04_tw_cb_not_early.
+
+(* from Async.PartitionTOProofs *)
+Section S_partition_cb_not_early_PartitionTOProofs.
+Import SZ.Async.PartitionTOProofs.
+Theorem C04_partition_cb_not_early : forall (n : nat) (to : option Z) (key : option (val -> val)) (sync : bool) (acts : list act) (s : PartitionTO.pst) (outs : list (list (Z * val * list mdi) * list nat)), 1 <= n -> (forall t : Z, to = Some t -> (0 < t)%Z) -> run_steps PartitionTO.partition_model (PartitionTO.p_init n to key sync) acts = (s, outs) -> NoDup (ids_of acts) -> forall r : nat, In r (rfired (PartitionTO.p_rc s)) -> mocc (p_held s) r = 0%Z.
+Proof. exact (@partition_cb_not_early). Qed.
+End S_partition_cb_not_early_PartitionTOProofs.
+Print Assumptions C04_partition_cb_not_early.
+
+(* from Async.MapAsyncProofs *)
+Section S_map_async_cb_not_early_MapAsyncProofs.
+Import SZ.Async.MapAsyncProofs.
+Theorem C04_map_async_cb_not_early : forall (p : nat) (sync : bool) (acts : list act) (s : nm_state MapAsync.map_async_model) (outs : list (list (Z * val * list mdi) * list nat)), run_steps MapAsync.map_async_model (MapAsync.m_init p sync) acts = (s, outs) -> NoDup (ids_of acts) -> forall r : nat, In r (rfired (MapAsync.m_rc s)) -> mocc (m_held s) r = 0%Z.
+Proof. exact (@map_async_cb_not_early). Qed.
+End S_map_async_cb_not_early_MapAsyncProofs.
+Print Assumptions C04_map_async_cb_not_early.
+
+(* from Async.ZipBPProofs *)
+Section S_zip_cb_not_early_buffered_ZipBPProofs.
+Import SZ.Async.ZipBPProofs.
+Theorem C04_zip_cb_not_early_buffered : forall (mx : nat) (sync : bool) (acts : list act) (s : nm_state ZipBP.zip_model) (outs : list (list (Z * val * list mdi) * list nat)), run_steps ZipBP.zip_model (ZipBP.z_init mx sync) acts = (s, outs) -> NoDup (ids_of acts) -> forall r : nat, In r (rfired (ZipBP.z_rc s)) -> mocc (z_held s) r = 0%Z.
+Proof. exact (@zip_cb_not_early_buffered). Qed.
+End S_zip_cb_not_early_buffered_ZipBPProofs.
+Print Assumptions C04_zip_cb_not_early_buffered.
+
+(* from Async.ZipBPProofs *)
+Section S_zip_cb_early_refuted_ZipBPProofs.
+Import SZ.Async.ZipBPProofs.
+Theorem C04_zip_cb_early_refuted : exists (acts : list act) (s : nm_state ZipBP.zip_model) (outs : list (list (Z * val * list mdi) * list nat)) (r : nat), NoDup (ids_of acts) /\ run_steps ZipBP.zip_model (ZipBP.z_init 1 false) acts = (s, outs) /\ In r (rfired (ZipBP.z_rc s)) /\ ZipBP.z_flight s <> [].
+Proof. exact (@zip_cb_early_refuted). Qed.
+End S_zip_cb_early_refuted_ZipBPProofs.
+Print Assumptions C04_zip_cb_early_refuted.
+
+(* from Async.Plain *)
+Section S_plain_cb_early_refuted_Plain.
+Import SZ.Async.Plain.
+Theorem C04_plain_cb_early_refuted : exists (acts : list act) (s : nm_state plain_model) (outs : list (list (Z * val * list mdi) * list nat)) (r : nat), NoDup (ids_of acts) /\ run_steps plain_model (pl_init false) acts = (s, outs) /\ In r (rfired (pl_rc s)) /\ pl_flight s <> [].
+Proof. exact (@plain_cb_early_refuted). Qed.
+End S_plain_cb_early_refuted_Plain.
+Print Assumptions C04_plain_cb_early_refuted.
+
